@@ -63,6 +63,7 @@ int main(int argc, char **argv)
     vh_case_begin(i);
     cfg_case_fp         = tag;
     cfg_case_nontrivial = 0;
+    cfg_reinit_counter  = (unsigned)(i * 3u); /* how reinit is awaited depends on the case only */
     fn(&rng, &a);
     vh_count("cases");
     if (cfg_case_nontrivial) {
